@@ -37,19 +37,23 @@ class UseGenerator(SimpleCodemod, NameResolutionMixin):
                     match original_node.args[0].value:
                         case cst.ListComp(elt=elt, for_in=for_in):
                             self.add_change(original_node, self.change_description)
+                            # Only a sole argument may go without its own
+                            # parentheses; the other arguments (`start`,
+                            # `key`, `default`) are kept
+                            sole = len(original_node.args) == 1
+                            parens = {} if not sole else {"lpar": [], "rpar": []}
+                            generator = cst.GeneratorExp(
+                                elt=elt,  # type: ignore
+                                for_in=for_in,  # type: ignore
+                                **parens,
+                            )
+                            first = (
+                                cst.Arg(value=generator)
+                                if sole
+                                else updated_node.args[0].with_changes(value=generator)
+                            )
                             return updated_node.with_changes(
-                                args=[
-                                    cst.Arg(
-                                        value=cst.GeneratorExp(
-                                            elt=elt,  # type: ignore
-                                            for_in=for_in,  # type: ignore
-                                            # No parens necessary since they are
-                                            # already included by the call expr itself
-                                            lpar=[],
-                                            rpar=[],
-                                        )
-                                    )
-                                ],
+                                args=[first, *updated_node.args[1:]],
                             )
 
         return original_node
